@@ -217,3 +217,36 @@ def apply_boundary(x, lb, ub, btype: int):
 def violation(value, lb, ub):
     value = np.asarray(value, float)
     return np.maximum(np.maximum(np.asarray(lb, float) - value, value - np.asarray(ub, float)), 0.0)
+
+
+# ---------------------------------------------------------------------------
+# normalized constraints reference (C07/C08)
+def normalized_spec(lower, upper):
+    """Entries (index, type, rhs, sign) of the constraints an algorithm needs in the form
+    sign*(c_index - rhs) >= 0 ('ineq') or == 0 ('eq'), in the order: per constraint, equality,
+    else lower side then upper side."""
+    out = []
+    for i, (lo, hi) in enumerate(zip(lower, upper)):
+        if abs(hi - lo) < 1e-15:
+            out.append((i, "eq", float(lo), 1.0))
+        else:
+            if np.isfinite(lo):
+                out.append((i, "ineq", float(lo), 1.0))
+            if np.isfinite(hi):
+                out.append((i, "ineq", float(hi), -1.0))
+    return out
+
+
+def masked_linear(cfg: dict):
+    """Linear constraints restated on the free variables: rows touching fixed variables are
+    not retained (documented behaviour); returns (A_free, lower, upper, kept_row_indices) or None."""
+    lin = cfg.get("linear_constraints")
+    if lin is None:
+        return None
+    A = np.atleast_2d(np.asarray(lin["coefficients"], dtype=float))
+    n = A.shape[0]
+    lo = np.broadcast_to(np.atleast_1d(np.asarray(lin["lower_bounds"], dtype=float)), (n,))
+    hi = np.broadcast_to(np.atleast_1d(np.asarray(lin["upper_bounds"], dtype=float)), (n,))
+    m = mask_of(cfg)
+    keep = np.all(A[:, ~m] == 0, axis=1) if (~m).any() else np.ones(n, dtype=bool)
+    return A[keep][:, m], lo[keep], hi[keep], np.where(keep)[0]
